@@ -150,6 +150,15 @@ func (g *c19Gen) pattern(v *c19Val, hit bool, depth int, names *[]string) *ast.N
 					// a literal against a container element: the comparison is a runtime error
 					subs = append(subs, ast.Num("1"))
 					g.labels["literal-vs-container-element"] = true
+				} else if i == bad && it.kind == "arr" && len(it.items) > 0 && g.b("innerprefix") {
+					// a nested array pattern that matches a proper prefix of the inner array: the
+					// lengths differ, so it does not match
+					var inner []*ast.Node
+					for _, e := range it.items[:len(it.items)-1] {
+						inner = append(inner, g.pattern(e, true, 0, names))
+					}
+					subs = append(subs, ast.Arr(inner...))
+					g.labels["nested-array-pattern-shorter-than-inner-array"] = true
 				} else if i == bad {
 					subs = append(subs, ast.Arr(ast.Id(g.fresh()), ast.Id(g.fresh()), ast.Id(g.fresh()), ast.Id(g.fresh()), ast.Id(g.fresh())))
 				} else {
@@ -206,6 +215,23 @@ func (g *c19Gen) body(ci int, names []string, ctx string) *ast.Node {
 			return ast.Block(ast.Print(items...))
 		}
 		return ast.Arr(items...)
+	}
+	if g.n(0, 7, "oneexprblock") == 0 {
+		// a block body that is one expression statement: the case still yields null
+		g.labels["block-body-of-one-expression-statement"] = true
+		var e *ast.Node
+		switch g.n(0, 2, "oneexpr") {
+		case 0:
+			e = ast.Set(ast.Id("glob"), ast.Str(fmt.Sprintf("B%d", ci)))
+		case 1:
+			e = ast.Str(fmt.Sprintf("B%d", ci))
+			if len(names) > 0 {
+				e = ast.Id(names[0])
+			}
+		default:
+			e = ast.Match(ast.Num("1"), ast.Case(ast.Str(fmt.Sprintf("B%d", ci)), ast.Num("1")))
+		}
+		return ast.Block(ast.ExprS(e))
 	}
 	if g.n(0, 2, "blockbody") == 0 {
 		args := []*ast.Node{ast.Str(fmt.Sprintf("C%d", ci))}
